@@ -136,13 +136,59 @@ def translate(repo_root='/repo'):
         for y in ast.walk(n):
             if isinstance(y, ast.Yield) and isinstance(y.value, ast.Tuple) and all(isinstance(e, ast.Attribute) for e in y.value.elts):
                 points.append((y.value.elts[0].attr, y.value.elts[1].attr))
-    return dict(junctions=junctions, funcs=funcs, pieces=pieces, default=default, segments=segments, points=points)
+    # the same, as an ordered list of items (fail closed on any other statement shape)
+    items = []
+
+    def isclose_guard(test):
+        # not np.isclose(self.zA, self.zB)
+        if (isinstance(test, ast.UnaryOp) and isinstance(test.op, ast.Not) and isinstance(test.operand, ast.Call)
+                and ast.unparse(test.operand.func) == 'np.isclose' and len(test.operand.args) == 2
+                and all(isinstance(a, ast.Attribute) for a in test.operand.args)):
+            return test.operand.args[0].attr, test.operand.args[1].attr
+        raise Untranslatable("guard " + ast.unparse(test))
+
+    def one(stmt, guard):
+        if isinstance(stmt, ast.Expr) and isinstance(stmt.value, ast.Yield):
+            t = stmt.value.value
+            if isinstance(t, ast.Tuple) and len(t.elts) == 2 and all(isinstance(e, ast.Attribute) for e in t.elts):
+                items.append(('point', t.elts[0].attr, t.elts[1].attr, guard))
+                return
+        if isinstance(stmt, ast.For) and isinstance(stmt.iter, ast.Call) and ast.unparse(stmt.iter.func) == 'np.linspace':
+            a, b = stmt.iter.args[0].attr, stmt.iter.args[1].attr
+            cnt = ast.unparse(stmt.iter.args[2])
+            if cnt != 'Config.GROOVE_RADIUS_POINT_COUNT':
+                raise Untranslatable("sample count " + cnt)
+            if guard is None or set(guard) != {a, b}:
+                raise Untranslatable("segment guard does not test its own end points")
+            y = stmt.body[0].value.value
+            if not (len(stmt.body) == 1 and isinstance(y, ast.Tuple) and ast.unparse(y.elts[0]) == stmt.target.id
+                    and isinstance(y.elts[1], ast.Call) and ast.unparse(y.elts[1].args[0]) == stmt.target.id):
+                raise Untranslatable("segment body " + ast.unparse(stmt))
+            items.append(('seg', a, b, y.elts[1].func.attr))
+            return
+        raise Untranslatable("statement in _enumerate_contour_points: " + ast.unparse(stmt)[:80])
+    for stmt in en.body:
+        if isinstance(stmt, ast.If):
+            if stmt.orelse or len(stmt.body) != 1:
+                raise Untranslatable("if with else / several statements")
+            one(stmt.body[0], isclose_guard(stmt.test))
+        else:
+            one(stmt, None)
+    # the assembly of the full polyline
+    asm = [ast.unparse(s) for s in init.body if isinstance(s, ast.Assign) and
+           ast.unparse(s.targets[0]) in ('right_side', 'left_side', 'self._contour_points')]
+    asm += [ast.unparse(s) for s in init.body if isinstance(s, ast.AugAssign) and 'left_side' in ast.unparse(s.target)]
+    expect = ['right_side = np.array(list(self._enumerate_contour_points()))', 'left_side = right_side[:-1].copy()',
+              'self._contour_points = np.concatenate([left_side, right_side[::-1]])', 'left_side[:, 0] *= -1']
+    if asm != expect:
+        raise Untranslatable("assembly of the polyline changed: " + repr(asm))
+    return dict(junctions=junctions, funcs=funcs, pieces=pieces, default=default, segments=segments, points=points, items=items)
 
 
 def generate(repo_root='/repo'):
     d = translate(repo_root)
     L = ["(* GENERATED by tools/py2coq/groove_td.py from generic_elongation.py. Do not edit. *)",
-         "From PyrollLib Require Import Expr.", "Open Scope string_scope.", ""]
+         "From PyrollLib Require Import Expr Groove.", "Open Scope string_scope.", ""]
     for k, v in d['junctions'].items():
         if k in ('r1', 'r2', 'r3', 'r4', 'alpha3', 'alpha4', 'indent', 'even_ground_width', 'usable_width', 'ground_width', 'flank_angle',
                  'depth', 'pad_angle'):
@@ -161,4 +207,10 @@ def generate(repo_root='/repo'):
              "; ".join(f"(g_{a}, g_{b}, f{f})" for a, b, f in d['segments']) + "].")
     L.append("Definition contour_points_explicit : list (expr * expr) := [" +
              "; ".join(f"(g_{a}, g_{b})" for a, b in d['points']) + "].")
+    def item(it):
+        if it[0] == 'point':
+            g = "None" if it[3] is None else f"(Some (g_{it[3][0]}, g_{it[3][1]}))"
+            return f"CPoint g_{it[1]} g_{it[2]} {g}"
+        return f"CSeg g_{it[1]} g_{it[2]} f{it[3]}"
+    L.append("Definition contour_items : list citem := [" + "; ".join(item(i) for i in d['items']) + "].")
     return "\n".join(L) + "\n", d
